@@ -66,6 +66,10 @@ EDITS = {
         ("mg10", "crates/lib/mimium-lang/src/compiler/mirgen.rs", "                let (e, _, state_e) = self.eval_block(*else_);\n                self.consume_and_insert_pushoffset();", "                let (e, _, state_e) = self.eval_block(*else_);", "verus", "mirgen_state"),
         ("mg11", "crates/lib/mimium-lang/src/compiler/mirgen.rs", "                    std::cmp::Ordering::Equal => state_t.clone(),\n                };\n                self.get_ctxdata().push_sum", "                    std::cmp::Ordering::Equal => vec![],\n                };\n                self.get_ctxdata().push_sum", "verus", "mirgen_state"),
         ("mg12", "crates/lib/mimium-lang/src/compiler/mirgen.rs", "                        let (r, t, s) = self.eval_expr(*t);\n                        (r, t, [states, s].concat())\n                    }\n                    None => (Arc::new(Value::None), unit!(), states),", "                        let (r, t, s) = self.eval_expr(*t);\n                        (r, t, s)\n                    }\n                    None => (Arc::new(Value::None), unit!(), states),", "verus", "mirgen_state"),
+        ("mu01", "crates/lib/mimium-lang/src/compiler/mirgen.rs", "                    let start_offset = match_pending + arms_state_size;\n                    let data = self.get_ctxdata();\n                    data.push_sum = match_push_sum;", "                    let start_offset = match_pending + arms_state_size;\n                    let data = self.get_ctxdata();\n                    data.push_sum = 0;", "verus", "mirgen_state"),
+        ("mu02", "crates/lib/mimium-lang/src/compiler/mirgen.rs", "                    Instruction::PushStateOffset(common_sum - end_sum),", "                    Instruction::PushStateOffset(common_sum - end_sum + 1),", "verus", "mirgen_state"),
+        ("mu03", "crates/lib/mimium-lang/src/compiler/mirgen.rs", "                // emit the arm's pending cursor move inside the arm\n                self.consume_and_insert_pushoffset();\n                arms_state_size", "                // emit the arm's pending cursor move inside the arm\n                arms_state_size", "verus", "mirgen_state"),
+        ("mu04", "crates/lib/mimium-lang/src/compiler/mirgen.rs", "        self.get_ctxdata().push_sum = common_sum;\n\n        // Generate merge block with PhiSwitch\n        self.add_new_basicblock();\n        let merge_block_idx = self.get_ctxdata().current_bb as u64;\n        let res = self.push_inst(Instruction::PhiSwitch(case_results));\n\n        // Update Switch instruction with correct block indices\n        let switch_inst = self\n            .get_current_fn()\n            .body\n            .get_mut(switch_bidx)\n            .expect(\"no basic block found\")\n            .0\n            .last_mut()\n            .expect(\"block contains no inst\");\n\n        match &mut switch_inst.1 {\n            Instruction::Switch {\n                cases,\n                default_block,\n                merge_block,\n                ..\n            } => {\n                *cases = case_blocks;\n                *default_block = default_block_idx;\n                *merge_block = merge_block_idx;\n            }\n            _ => panic!(\"expected Switch instruction\"),\n        }\n\n        // Use the largest", "        self.get_ctxdata().push_sum = match_push_sum;\n\n        // Generate merge block with PhiSwitch\n        self.add_new_basicblock();\n        let merge_block_idx = self.get_ctxdata().current_bb as u64;\n        let res = self.push_inst(Instruction::PhiSwitch(case_results));\n\n        // Update Switch instruction with correct block indices\n        let switch_inst = self\n            .get_current_fn()\n            .body\n            .get_mut(switch_bidx)\n            .expect(\"no basic block found\")\n            .0\n            .last_mut()\n            .expect(\"block contains no inst\");\n\n        match &mut switch_inst.1 {\n            Instruction::Switch {\n                cases,\n                default_block,\n                merge_block,\n                ..\n            } => {\n                *cases = case_blocks;\n                *default_block = default_block_idx;\n                *merge_block = merge_block_idx;\n            }\n            _ => panic!(\"expected Switch instruction\"),\n        }\n\n        // Use the largest", "verus", "mirgen_state"),
         ("am01", RT + "vm.rs", "                    let ptr = self.get_current_state().get_state_mut(1);\n                    ptr[0] = s;", "                    let ptr = self.get_current_state().get_state_mut(1);\n                    ptr[0] = v;", "kani", "runtime"),
         ("am02", RT + "vm.rs", "                    self.set_stack_range(dst as i64, v);\n                }\n                Instruction::SetState", "                    self.set_stack_range(dst as i64 + 1, v);\n                }\n                Instruction::SetState", "kani", "runtime"),
         ("am03", RT + "vm.rs", "                    let res = ringbuf.process(i, t);", "                    let res = ringbuf.process(t, i);", "kani", "runtime"),
